@@ -168,6 +168,9 @@ impl<R: Clone> Script<R> {
 pub struct LocSpec {
     pub default_locale: String,
     pub messages: BTreeMap<String, BTreeMap<String, String>>,
+    /// a localization back-end that takes this long to look up the timeout message (a remote table); 0 = at once
+    #[serde(default)]
+    pub timeout_lat_ns: u64,
 }
 
 impl Default for LocSpec {
@@ -186,6 +189,7 @@ impl Default for LocSpec {
         Self {
             default_locale: "en_US".to_string(),
             messages,
+            timeout_lat_ns: 0,
         }
     }
 }
@@ -676,6 +680,7 @@ impl StrategyAdapter for SimStrategy {
 pub struct RecLocalization {
     pub sh: Mutex<Sh>,
     pub inner: FixedLocalizationAdapter,
+    pub timeout_lat_ns: u64,
 }
 
 impl std::fmt::Debug for RecLocalization {
@@ -694,6 +699,7 @@ impl RecLocalization {
         Self {
             sh: Mutex::new(sh.clone()),
             inner: FixedLocalizationAdapter::new(spec.default_locale.clone(), messages),
+            timeout_lat_ns: spec.timeout_lat_ns,
         }
     }
     pub fn rebind(&self, sh: &Sh) {
@@ -708,6 +714,12 @@ impl LocalizationAdapter for RecLocalization {
         key: &str,
         params: &[(&'static str, String)],
     ) -> passage_adapters::Result<String> {
+        if self.timeout_lat_ns > 0 && key == "disconnect_timeout" {
+            let sh = self.sh.lock().unwrap().clone();
+            sh.world.lock().unwrap().ev("svc:localization", "start", json!({"key": key}));
+            sh.world.lock().unwrap().fault("slow_localization");
+            tokio::time::sleep(Duration::from_nanos(self.timeout_lat_ns)).await;
+        }
         let out = self.inner.localize(locale, key, params).await;
         let sh = self.sh.lock().unwrap().clone();
         sh.world.lock().unwrap().ev(
